@@ -24,6 +24,8 @@ import json,sys
 try:
     c=json.load(open(sys.argv[1]))["coverage"]; f=c.get("fault_kinds_fired",{})
     print("  reach: library goroutines=%s channel ops=%s env runs=%s" % (f.get("goroutines_started_by_the_library","-"), f.get("channel_operations_inside_the_library","-"), f.get("clock_jump_or_random_seed_runs","-")))
+    seen=c.get("violation_keys_seen") or {}
+    print("  findings: %d occurrences over %d keys (1-2 occurrences = found by luck)" % (sum(seen.values()), len(seen)))
 except Exception as e: pass
 PY
 rm -rf $d
